@@ -1,5 +1,6 @@
 import FeatModel.Model.Proto
 import FeatModel.Model.MG
+import FeatModel.Model.MGRef
 /-! line-protocol driver for the C09 model (multigrid cycles)
 
     mg|mgr NL n_0 … n_{NL-1}  { A[n*n]  nf idx*  [P[n*nc] R[nc*n] unless last level]  4 × (flag [M[n*n]]) }^NL
@@ -53,7 +54,7 @@ def cycleOf : Nat → Cycle
 def cgcOf : Nat → Cgc
   | 0 => .fixed | 1 => .minEnergy | _ => .minDefect
 
-def appsP (levels : Array Level) : Nat → Obj → List String → P String
+def appsP (levels : Array Level) (withRef : Bool) : Nat → Obj → List String → P String
   | 0, _, acc => pure (" ".intercalate acc.reverse)
   | k + 1, o, acc => do
     let cy ← nat; let cg ← nat; let top ← int; let crs ← int
@@ -64,20 +65,23 @@ def appsP (levels : Array Level) : Nat → Obj → List String → P String
       match applyOnce levels (cycleOf cy) (cgcOf cg) t c d o with
       | (.ok log cor, o') =>
         let line := s!"E {log.length}" ++ String.join (log.map (" " ++ ·)) ++ s!" X {showRatsL cor} S 1"
-        appsP levels k o' (line :: acc)
+        -- `mgx`: additionally the independent textbook operator `mgRef` applied to the defect
+        let line := if withRef then
+            line ++ s!" Y {showRatsL (applyRef levels (cycleOf cy) (cgcOf cg) t c d)}" else line
+        appsP levels withRef k o' (line :: acc)
       | (.abortRange, _) => pure "ABORT:range"
       | (.abortSanity, _) => pure "ABORT:sanity"
 
 def handle : P String := do
   let op ← tok
   match op with
-  | "mg" | "mgr" =>
+  | "mg" | "mgr" | "mgx" | "mgxr" =>
     let nl ← nat
     let ns ← many nl nat
     let levels ← levelsP ns nl nl 0
     let napp ← nat
     let arr := levels.toArray
-    appsP arr napp { lv := Array.replicate nl {} } []
+    appsP arr (op == "mgx" || op == "mgxr") napp { lv := Array.replicate nl {} } []
   | _ => throw s!"unknown op {op}"
 
 def step (ts : Toks) : String :=
